@@ -68,6 +68,7 @@ let label_of (s : string) : Storage.label =
   | 'R' -> Storage.DeliverAck (nat_of_int (int_of_string rest))
   | 'Y' -> Storage.DropAck (nat_of_int (int_of_string rest))
   | 'F' -> Storage.ForgeAck (zi rest)
+  | 'Z' -> Storage.ResetMgr
   | 'I' -> Storage.Inject (msg_of rest)
   | _ -> failwith ("label " ^ s)
 
